@@ -18,6 +18,31 @@ def _unk(tag):
     return u
 
 
+def _same_sites(a, b):
+    """two index-spec items naming the same sites: an integer k and the advanced index [k] select the same column(s)"""
+    def norm(x):
+        if isinstance(x, (tuple, list)) and len(x) == 2 and x[0] == "advlist":
+            return ("l", tuple(int(k) for k in x[1]))
+        if isinstance(x, (tuple, list)) and len(x) == 2 and x[0] == "unk":
+            return ("u", str(x[1]))
+        if isinstance(x, (tuple, list)) and len(x) == 2 and x[0] == "adv" and hasattr(x[1], "single_atom"):
+            cs = T.as_stack0(x[1])
+            if cs is not None and all(c.const_value() is not None for c in cs):
+                return ("l", tuple(int(c.const_value()) for c in cs))
+            sy = x[1].syms() if hasattr(x[1], "syms") else set()
+            if len(sy) == 1 and next(iter(sy)).startswith("val:"):
+                return ("u", next(iter(sy))[4:])
+        if isinstance(x, (tuple, list)) and len(x) == 2 and x[0] == "adv":
+            x = x[1]
+            c = x.const_value() if hasattr(x, "const_value") else None
+            return ("k", int(c)) if c is not None else ("t", repr(x))
+        if isinstance(x, int):
+            return ("k", x)
+        return ("t", repr(x))
+
+    return norm(a) == norm(b)
+
+
 def run(ck):
     prog = ck.program
     swapf = prog.func(ENT, "swap")
@@ -84,7 +109,9 @@ def run(ck):
                     wr = [e for e in p.effects if "param:samples" in e.origins and e.kind in ("write", "meta")]
                     ck.check(not wr, "C09.R1", inst + ":batch untouched", wr[0].site if wr else asite, "SWAP.apply writes the caller's batch (%s)" % (wr[0].detail if wr else ""))
                     sc = [c for c in p.calls if c[0].endswith("entanglement.swap")]
-                    ck.check(len(sc) == 1, "C09.R1", inst + ":one swap", asite, "swap is called %d times" % len(sc))
+                    # how the exchanged replicas are built is free (the public swap() or anything else): what they must BE is decided below,
+                    # on the values handed to importance_sampling_weight.  A call of swap() is only checked for what it receives.
+                    ck.check(len(sc) <= 1, "C09.R1", inst + ":at most one swap", asite, "swap is called %d times" % len(sc))
                     if len(sc) == 1:
                         env = sc[0][5]
                         a1, a2 = env.get("s1"), env.get("s2")
@@ -119,10 +146,19 @@ def run(ck):
                         spec = (("slice", None, None, None), _spec_item(o.inst.attrs.get("A")))
                         sw1 = T.upd(S, spec, T.app("index", R, spec))
                         sw2 = T.upd(R, spec, T.app("index", S, spec))
+                        def _sel(t_):
+                            # where(<site mask that is 1 exactly on the region>, X, Y) is Y with the region's columns taken from X
+                            at_ = t_.single_atom() if t_ is not None and hasattr(t_, "single_atom") else None
+                            if isinstance(at_, T.App) and at_.op == "where" and len(at_.args) == 3 and hasattr(at_.args[0], "single_atom"):
+                                m_ = at_.args[0].single_atom()
+                                if isinstance(m_, T.App) and m_.op == "upd" and m_.args[0] == T.ZERO and m_.args[2] == T.ONE and len(m_.args[1]) == 1 and _same_sites(m_.args[1][0], spec[1]):
+                                    return T.upd(at_.args[2], spec, T.app("index", at_.args[1], spec))
+                            return t_
+
                         pairs = []
                         for c in wc:
                             vp, v = c[5].get("vp"), c[5].get("v")
-                            pairs.append((getattr(vp, "term", None), getattr(v, "term", None)))
+                            pairs.append((_sel(getattr(vp, "term", None)), getattr(v, "term", None)))
                         ok = sorted(map(repr, pairs)) == sorted(map(repr, [(sw1, S), (sw2, R)]))
                         if ok:
                             ck.ok("C09.R3", inst + ":weights pair swapped_k with original_k", asite)
@@ -160,8 +196,36 @@ def run(ck):
             return (s, api.observable_instances(it, prog)["SWAP/list-region"], tens(it, "samples", ("B", "nv")))
 
         check_history(ck, "C09.R4", "SWAP/%s" % cls, asite, mk, lambda it, c: call(it, c[1], "apply", c[0], c[2]), max_paths=40)
-    ck.require_min("C09.R4", 3)
-    ck.require_min("C09.R1", 27)
+    # the region is a public attribute: after `obs.A = <other region>` the estimator is the one of the new region (what a fresh
+    # SWAP(<other region>) computes), whatever the object evaluated before
+    from .history import _same
+    from ..interp import snapshot_terms
+
+    swc = prog.cls("SWAP")
+    for cls in api.STATES:
+        inst = "SWAP/%s:region changed between two evaluations" % cls
+        with ck.guard("C09.R4", inst, asite):
+            def thA(it, cls=cls):
+                s = make_state(it, cls)
+                smp = tens(it, "samples", ("B", "nv"))
+                o1 = it.instantiate(swc, [it.new_list([VConst(0)])], {}, None)
+                call(it, o1, "apply", s, smp)
+                it.set_attr(o1, "A", it.new_list([VConst(1)]), None)
+                r2 = snapshot_terms(it, call(it, o1, "apply", s, smp))
+                o2 = it.instantiate(swc, [it.new_list([VConst(1)])], {}, None)
+                r3 = snapshot_terms(it, call(it, o2, "apply", s, smp))
+                return r2, r3
+
+            for p in returning(paths_of(prog, thA, sticky=True, max_paths=30), inst):
+                r2, r3 = p.value
+                if r2 is None or r3 is None:
+                    ck.undecided("C09.R4", inst, asite, "results are not comparable terms")
+                else:
+                    ck.check(_same(r2, r3), "C09.R4", inst, asite,
+                             "after obs.A = [1] the object that evaluated region [0] before returns %s; a fresh SWAP([1]) returns %s: something derived from the old region is kept"
+                             % (str(r2)[:110], str(r3)[:110]), key="C09.R4|SWAP|stale region")
+    ck.require_min("C09.R4", 6)
+    ck.require_min("C09.R1", 18)
     ck.require_min("C09.R2", 10)
     ck.require_min("C09.R3", 40)
     ck.assumptions += [
